@@ -152,46 +152,81 @@ func Post(tier string, merged *core.Result) {
 	if replaying() {
 		return
 	}
-	p := pending
-	if p == nil {
-		p = startRace(tier)
+	run := pending
+	if run == nil {
+		run = startRace(tier)
 	}
 	pending = nil
-	p.collect(merged)
+	run.collect(merged)
 }
 
-// RacePass runs mc-race to completion and records its findings in r.
+// RacePass runs the race pass to completion and records its findings in r.
 func RacePass(tier string, r *core.Result) { startRace(tier).collect(r) }
 
-// raceProc is one run of mc-race.
-type raceProc struct {
-	tier           string
-	logBase        string
-	stdout, stderr bytes.Buffer
-	done           chan error
+// ColdProcesses is the number of fresh mc-race processes per check run:
+// lazily-filled package-level state is cold exactly once per process, so
+// the cold phase (see cmd/mc-race) is repeated in several of them.
+func ColdProcesses(tier string) int {
+	if tier == "thorough" {
+		return 16
+	}
+	return 4
 }
 
-var pending *raceProc
+// raceProc is one mc-race process; raceRun is all of them.
+type raceProc struct {
+	logBase        string
+	stdout, stderr bytes.Buffer
+	err            error
+}
 
-func startRace(tier string) *raceProc {
-	p := &raceProc{tier: tier, logBase: filepath.Join(buildDir(), "race.log"), done: make(chan error, 1)}
-	old, _ := filepath.Glob(p.logBase + ".*")
+type raceRun struct {
+	tier  string
+	procs []*raceProc
+	done  chan struct{}
+}
+
+var pending *raceRun
+
+// startRace launches the mc-race processes (at most 4 at a time, 8 Ps each)
+// in the background.
+func startRace(tier string) *raceRun {
+	run := &raceRun{tier: tier, done: make(chan struct{})}
+	old, _ := filepath.Glob(filepath.Join(buildDir(), "race.log*"))
 	for _, f := range old {
 		os.Remove(f)
 	}
-	cmd := exec.Command(RaceBin(), tier)
-	cmd.Env = append(os.Environ(), "GORACE=halt_on_error=0 exitcode=66 log_path="+p.logBase, "GOMAXPROCS=16")
-	cmd.Stdout, cmd.Stderr = &p.stdout, &p.stderr
-	go func() { p.done <- cmd.Run() }()
-	return p
+	for i := 0; i < ColdProcesses(tier); i++ {
+		run.procs = append(run.procs, &raceProc{logBase: filepath.Join(buildDir(), fmt.Sprintf("race.log.%d", i))})
+	}
+	go func() {
+		defer close(run.done)
+		sem := make(chan struct{}, 4)
+		var wg sync.WaitGroup
+		for _, p := range run.procs {
+			wg.Add(1)
+			sem <- struct{}{}
+			go func(p *raceProc) {
+				defer func() { <-sem; wg.Done() }()
+				cmd := exec.Command(RaceBin(), tier)
+				cmd.Env = append(os.Environ(), "GORACE=halt_on_error=0 exitcode=66 log_path="+p.logBase, "GOMAXPROCS=8")
+				cmd.Stdout, cmd.Stderr = &p.stdout, &p.stderr
+				p.err = cmd.Run()
+			}(p)
+		}
+		wg.Wait()
+	}()
+	return run
 }
 
-// RaceSummary is what mc-race prints on stdout.
+// RaceSummary is what one mc-race process prints on stdout.
 type RaceSummary struct {
 	Goroutines int            `json:"goroutines"`
 	Rounds     int            `json:"rounds"`
-	Iterations int            `json:"iterations"` // per goroutine and round
-	Calls      int64          `json:"calls"`      // observer calls in total
+	Iterations int            `json:"iterations"`  // per goroutine and round
+	Calls      int64          `json:"calls"`       // observer calls of the warm rounds
+	ColdShapes int            `json:"cold_shapes"` // shapes of the cold phase
+	ColdCalls  int64          `json:"cold_calls"`  // observer calls of the cold phase
 	Shapes     int            `json:"shapes"`
 	Observers  int            `json:"observers"`
 	Mismatches []RaceMismatch `json:"mismatches"`
@@ -209,73 +244,120 @@ type RaceMismatch struct {
 	Count    int64  `json:"count"`
 }
 
-var raceFuncRE = regexp.MustCompile(`(?m)^  (\S+)\(\)$`)
+var (
+	raceFuncRE  = regexp.MustCompile(`(?m)^  (\S+)\(\)$`)
+	fatalFuncRE = regexp.MustCompile(`(?m)^(github\.com/cockroachdb/errors[^\s(]*(?:\([^)]*\))?[^\s(]*)\(`)
+	typeArgRE   = regexp.MustCompile(`\[.*\]`)
+)
 
-// collect waits for mc-race and records data races and result mismatches.
-func (p *raceProc) collect(r *core.Result) {
-	tier, logBase, stdout, stderr := p.tier, p.logBase, &p.stdout, &p.stderr
-	if err := <-p.done; err != nil {
-		if ee, ok := err.(*exec.ExitError); !ok || ee.ExitCode() != 66 {
-			r.HarnessError("race pass: %v\n%s", err, tailStr(stderr.String(), 2000))
-			return
+// ShapeFamily strips the type argument of a cold shape name, so that one
+// defect gives one violation key rather than one per instantiation.
+func ShapeFamily(shape string) string {
+	if strings.HasPrefix(shape, "fresh-") {
+		return typeArgRE.ReplaceAllString(shape, "")
+	}
+	return shape
+}
+
+// collect waits for the mc-race processes and records data races, runtime
+// fatal errors and result mismatches.
+func (run *raceRun) collect(r *core.Result) {
+	<-run.done
+	tier := run.tier
+	replay := map[string]interface{}{"race_pass": true, "tier": tier}
+	var total RaceSummary
+	var nrep, nfatal, nok int64
+	for i, p := range run.procs {
+		stderr := p.stderr.String()
+		logs, _ := filepath.Glob(p.logBase + ".*")
+		var text strings.Builder
+		for _, f := range logs {
+			b, _ := os.ReadFile(f)
+			text.Write(b)
 		}
-	}
-	var sum RaceSummary
-	out := stdout.String()
-	k := strings.LastIndex(out, "@@RACE-SUMMARY@@\n")
-	if k < 0 || json.Unmarshal([]byte(out[k+len("@@RACE-SUMMARY@@\n"):]), &sum) != nil {
-		r.HarnessError("race pass: no summary\n%s", tailStr(stderr.String(), 2000))
-		return
-	}
-	r.Count("race_pass_goroutines", int64(sum.Goroutines))
-	r.Count("race_pass_iterations", int64(sum.Rounds*sum.Iterations))
-	r.Count("race_pass_observer_calls", sum.Calls)
-	r.Assumptions = append(r.Assumptions, fmt.Sprintf(
-		"data races: auxiliary dynamic analysis, NOT an enumeration — the C18 driver bodies run free under the Go race detector "+
-			"(%d goroutines × %d rounds × %d iterations × %d observers on each of %d shared shapes); the library has no synchronisation, so "+
-			"conflicting accesses of two goroutines are unordered in every schedule and the detector does not depend on the schedule it happens to see",
-		sum.Goroutines, sum.Rounds, sum.Iterations, sum.Observers, sum.Shapes))
-	for _, m := range sum.Mismatches {
-		clause := "result-differs"
-		if m.Panic {
-			clause = "panic"
+		// a report written to stderr (log_path not honoured) counts too.
+		text.WriteString(stderr)
+		for _, blk := range strings.Split(text.String(), "==================") {
+			if !strings.Contains(blk, "WARNING: DATA RACE") {
+				continue
+			}
+			nrep++
+			fn, first := "", ""
+			for _, m := range raceFuncRE.FindAllStringSubmatch(blk, -1) {
+				if first == "" {
+					first = m[1]
+				}
+				if strings.HasPrefix(m[1], "github.com/cockroachdb/errors") && !strings.Contains(m[1], "/verifsched") {
+					fn = m[1]
+					break
+				}
+			}
+			if fn == "" {
+				fn = "outside-library:" + first
+			}
+			r.Violate("data-race|"+fn, "the Go race detector reports, with the C18 observers running concurrently on one shared error:\n"+
+				tailStr(strings.TrimSpace(blk), 2400), replay)
 		}
-		key := fmt.Sprintf("%s|%s|%s+free-running", clause, m.Shape, m.Observer)
-		r.Violate(key, fmt.Sprintf("race pass (free-running goroutines, no scheduler): observer %s on shape %s returned (%d times)\n  %s\nalone it returns\n  %s",
-			m.Observer, m.Shape, m.Count, tailStr(m.Got, 600), tailStr(m.Want, 600)),
-			map[string]interface{}{"race_pass": true, "tier": tier})
-	}
-	logs, _ := filepath.Glob(logBase + ".*")
-	var text strings.Builder
-	for _, f := range logs {
-		b, _ := os.ReadFile(f)
-		text.Write(b)
-	}
-	// a report written to stderr (log_path not honoured) counts too.
-	text.WriteString(stderr.String())
-	nrep := int64(0)
-	for _, blk := range strings.Split(text.String(), "==================") {
-		if !strings.Contains(blk, "WARNING: DATA RACE") {
+		// the runtime's own detection ("concurrent map read and map write",
+		// "concurrent map writes", …) kills the process: same defect class.
+		if k := strings.Index(stderr, "fatal error: "); k >= 0 {
+			nfatal++
+			fn := "unknown"
+			if m := fatalFuncRE.FindStringSubmatch(stderr[k:]); m != nil {
+				fn = m[1]
+			}
+			line := stderr[k:]
+			if nl := strings.IndexByte(line, '\n'); nl > 0 {
+				line = line[:nl]
+			}
+			r.Violate("data-race|"+fn, "the Go runtime aborted the free-running C18 observers: "+line+"\n"+tailStr(stderr[k:], 2400), replay)
 			continue
 		}
-		nrep++
-		fn, first := "", ""
-		for _, m := range raceFuncRE.FindAllStringSubmatch(blk, -1) {
-			if first == "" {
-				first = m[1]
-			}
-			if strings.HasPrefix(m[1], "github.com/cockroachdb/errors") && !strings.Contains(m[1], "/verifsched") {
-				fn = m[1]
-				break
+		if p.err != nil {
+			if ee, ok := p.err.(*exec.ExitError); !ok || ee.ExitCode() != 66 {
+				r.HarnessError("race pass process %d: %v\n%s", i, p.err, tailStr(stderr, 2000))
+				continue
 			}
 		}
-		if fn == "" {
-			fn = "outside-library:" + first
+		var sum RaceSummary
+		out := p.stdout.String()
+		k := strings.LastIndex(out, "@@RACE-SUMMARY@@\n")
+		if k < 0 || json.Unmarshal([]byte(out[k+len("@@RACE-SUMMARY@@\n"):]), &sum) != nil {
+			r.HarnessError("race pass process %d: no summary\n%s", i, tailStr(stderr, 2000))
+			continue
 		}
-		r.Violate("data-race|"+fn, "the Go race detector reports, with the C18 observers running concurrently on one shared error:\n"+
-			tailStr(strings.TrimSpace(blk), 2400), map[string]interface{}{"race_pass": true, "tier": tier})
+		nok++
+		total.Goroutines, total.Observers, total.Shapes, total.ColdShapes = sum.Goroutines, sum.Observers, sum.Shapes, sum.ColdShapes
+		total.Rounds += sum.Rounds
+		total.Iterations = sum.Iterations
+		total.Calls += sum.Calls
+		total.ColdCalls += sum.ColdCalls
+		for _, m := range sum.Mismatches {
+			clause := "result-differs"
+			if m.Panic {
+				clause = "panic"
+			}
+			key := fmt.Sprintf("%s|%s|%s+free-running", clause, ShapeFamily(m.Shape), m.Observer)
+			r.Violate(key, fmt.Sprintf("race pass (free-running goroutines, no scheduler): observer %s on shape %s returned (%d times)\n  %s\nalone it returns\n  %s",
+				m.Observer, m.Shape, m.Count, tailStr(m.Got, 600), tailStr(m.Want, 600)), replay)
+		}
 	}
+	r.Count("race_cold_processes", int64(len(run.procs)))
+	r.Count("race_cold_processes_completed", nok)
+	r.Count("race_cold_shapes_per_process", int64(total.ColdShapes))
+	r.Count("race_cold_observer_calls", total.ColdCalls)
+	r.Count("race_pass_goroutines", int64(total.Goroutines))
+	r.Count("race_pass_iterations", int64(total.Rounds*total.Iterations))
+	r.Count("race_pass_observer_calls", total.Calls)
 	r.Count("race_reports", nrep)
+	r.Count("race_runtime_fatal_errors", nfatal)
+	r.Assumptions = append(r.Assumptions, fmt.Sprintf(
+		"data races: auxiliary dynamic analysis, NOT an enumeration — the C18 driver bodies run free under the Go race detector in %d fresh processes. "+
+			"Each process starts with a COLD phase (before any solo baseline or other library use: %d goroutines released together, every observer on each of %d shapes, "+
+			"most of them over generic user types never looked at before, each goroutine in its own rotation), so that lazily-filled package-level state is first touched concurrently; "+
+			"then warm rounds (%d rounds × %d iterations × %d observers on each of %d shared shapes in total). The detector is happens-before based: it does not need the racy "+
+			"interleaving to occur, but it only sees code paths that execute — first-use paths are seen once per type and process, which is why types and processes are multiplied",
+		len(run.procs), total.Goroutines, total.ColdShapes, total.Rounds, total.Iterations, total.Observers, total.Shapes))
 }
 
 func tailStr(s string, n int) string {
